@@ -5,10 +5,6 @@ use bytes::BufMut;
 use super::*;
 verus! {
 
-/// Vec<u8>'s BufMut implementation appends to the vector (assumed: bytes crate)
-impl BufMutSpecImpl for Vec<u8> {
-    open spec fn bytes(&self) -> Seq<u8> { self@ }
-}
 
 /// `dst.put(&src[from..])`: appends the tail of src
 #[verifier::external_body]
